@@ -270,6 +270,26 @@ func (leth) Gen(rng *rand.Rand, tier string) []Case {
 			add("rtn:" + spec + "," + hx(payloads()))
 		}
 	}
+	// MAC lengths 5, 6, 7 on either side (exactly 6 required); frame size 59, 60, 61 (padding below 60)
+	for _, n := range []int{5, 6, 7} {
+		for _, side := range []int{0, 1} {
+			d, sr := hx(lnRandBytes(rng, 6)), hx(lnRandBytes(rng, 6))
+			if side == 0 {
+				d = hx(lnRandBytes(rng, n))
+			} else {
+				sr = hx(lnRandBytes(rng, n))
+			}
+			add("tag:field-extreme", fmt.Sprintf("new:%s.%s.2048.0,11%d,%s", d, sr, rng.Intn(3), hx(payloads())))
+			add("tag:field-extreme", fmt.Sprintf("new:%s.%s.0.0,10%d,%s", d, sr, rng.Intn(3), hx(payloads())))
+		}
+	}
+	for _, n := range []int{44, 45, 46, 47, 48} {
+		for _, ty := range []int{2048, 0} {
+			spec := fmt.Sprintf("%s.%s.%d.0", hx(lnRandBytes(rng, 6)), hx(lnRandBytes(rng, 6)), ty)
+			add("tag:min-frame-boundary", "rtn:"+spec+","+hx(lnRandBytes(rng, n)))
+			add("tag:min-frame-boundary", "new:"+spec+",111,"+hx(lnRandBytes(rng, n)))
+		}
+	}
 	// 802.3 length boundary: payloads of 1499..1537 bytes under a length field
 	for _, n := range []int{1498, 1499, 1500, 1501, 1502, 1533, 1534, 1535, 1536, 1537, 1538} {
 		spec := fmt.Sprintf("%s.%s.0.0", mac(false), mac(false))
